@@ -32,6 +32,16 @@ class ClientRun:
             return conn
 
         client_mod.APIConnection = factory
+        # spy on handler registration (which message types does an API call subscribe to)
+        self.step_subs: list[str] = []
+        self._orig_add = orig._add_message_callback_without_remove
+        run = self
+
+        def spy(conn, on_message, msg_types):
+            run.step_subs.extend(t.__name__ for t in msg_types)
+            return run._orig_add(conn, on_message, msg_types)
+
+        orig._add_message_callback_without_remove = spy
         import base64
 
         self.client = APIClient(
@@ -63,13 +73,14 @@ class ClientRun:
         for op in w.poll_ops():
             done.append([op.base, op.outcome, op.outcome not in ("ok", "Cancelled") and not op.outcome.startswith("RAW:")])
         p = self._proj()
-        changed = p != self.last or done or writes
+        changed = p != self.last or done or writes or self.step_subs
         if cause == "int" and not changed:
             return
         if cause == "idle" and not changed and self.rows and self.rows[-1]["c"] == "idle":
             return
         self.last = p
-        self.rows.append({"c": cause, "a": args, "t": w.now_ms(), "pi": p[0], "sts": list(p[1]), "dn": done, "wn": len(writes), "w": writes[:4], "q": idle})
+        subs, self.step_subs = self.step_subs, []
+        self.rows.append({"c": cause, "a": args, "t": w.now_ms(), "pi": p[0], "sts": list(p[1]), "dn": done, "wn": len(writes), "w": writes, "sub": subs, "q": idle})
 
     def _after_callback(self, handle) -> None:
         if self.cur is not None:
@@ -146,6 +157,49 @@ class ClientRun:
 
         self.inject("UserApi", {"name": name}, fn)
 
+    # voice assistant
+    def ev_va_subscribe(self, mode: str, audio: bool):
+        """mode: what handle_start does - 'port' returns 12345, 'none' returns None, 'block' waits until cancelled"""
+
+        def fn():
+            run = self
+
+            async def handle_start(conv_id, flags, settings, wake):
+                run.va_log.append(["start", conv_id])
+                if mode == "port":
+                    return 12345
+                if mode == "none":
+                    return None
+                await run.loop.create_future()
+
+            async def handle_stop(abort):
+                run.va_log.append(["stop", bool(abort)])
+
+            async def handle_audio(data):
+                run.va_log.append(["audio", len(data)])
+
+            async def handle_fin(m):
+                run.va_log.append(["finished", bool(m.success)])
+
+            self.va_log = getattr(self, "va_log", [])
+            try:
+                self.va_unsub = self.client.subscribe_voice_assistant(
+                    handle_start=handle_start, handle_stop=handle_stop, handle_audio=handle_audio if audio else None, handle_announcement_finished=handle_fin)
+            except Exception:  # noqa: BLE001  (not connected)
+                return None
+
+        self.inject("VaSubscribe", {"name": f"subscribe_voice_assistant[{mode}]"}, fn)
+
+    def ev_va_unsub(self):
+        def fn():
+            u = getattr(self, "va_unsub", None)
+            if u is None:
+                return False
+            self.va_unsub = None
+            u()
+
+        self.inject("VaUnsub", {"name": "voice_assistant_unsub"}, fn)
+
     # environment
     def ev_resolve(self, res: str):
         self.inject("env", {"e": "resolve", "res": res}, self.w.resolve_ok if res == "ok" else self.w.resolve_err)
@@ -196,6 +250,7 @@ class ClientRun:
         self.loop.after_callback = None
         self.unhandled = [repr(c.get("exception")) for c in self.loop.unhandled]
         self.client_mod.APIConnection = self._orig_conn_cls
+        self._orig_conn_cls._add_message_callback_without_remove = self._orig_add
         self.w.close()
         return {"cfg": {"noise": bool(self.cfg.get("noise")), "login": bool(self.cfg.get("login"))}, "rows": self.rows, "skipped": self.skipped,
                 "gaps": self.api_gaps, "stops": self.user_stops}
@@ -219,6 +274,7 @@ def run_schedule(cfg: dict, schedule: list, seed: int = 0) -> dict:
     except BaseException:
         r.loop.after_callback = None
         r.client_mod.APIConnection = r._orig_conn_cls
+        r._orig_conn_cls._add_message_callback_without_remove = r._orig_add
         r.w.close()
         raise
 
